@@ -36,16 +36,19 @@ def run(ctx):
     st = ctx.harness_json("codec", ["c08", head], timeout=900, env={"VERIF_C08_SELFTEST": "1"})
     hit = set(c.split("/")[0] for c in (st.get("fail_count") or {}) if "/prefix-accepted/" in c)
     missing = [d for d in DECODERS if d not in hit]
-    if missing:
-        raise Infra("self-test: an accepted 'prefix' was not reported for decoders %s" % missing)
     ctx.extra["selftest_decoders_reporting"] = sorted(hit)
 
     res = ctx.harness_json("codec", ["c08", path], timeout=3000)
     per = (res.get("extra") or {}).get("prefixes_per_decoder", {})
-    for d in DECODERS:
-        if per.get(d, 0) == 0:
-            raise Infra("no prefix was fed to decoder %s: %s" % (d, per))
     absorb(ctx, res)
+    # a self-test that fails on a tree where the decoders already misbehave is not an infrastructure
+    # problem: the verdict of the run stands
+    if not ctx.violations:
+        if missing:
+            raise Infra("self-test: an accepted 'prefix' was not reported for decoders %s" % missing)
+        for d in DECODERS:
+            if per.get(d, 0) == 0:
+                raise Infra("no prefix was fed to decoder %s: %s" % (d, per))
     ctx.extra.update({"vectors_exported": n["V"], "frames": n["F"], "exhaustive": True,
                       "explanation": "every cut position of every valid encoding of the bounded universe, for every "
                                      "decoder that accepts the complete encoding"})
